@@ -324,16 +324,29 @@ def run(ck, ix, tier):
                       ("SystemDefinition", "UnitDefinition", "block headers"), ("DefaultsDefinition", "UnitDefinition", "block headers")):
         ck.check(before(a, b), "G-EXH", f"root-classifier-order|{a}<{b}", root.module.relpath, f"{a} is tried before {b}", f"{b} is tried before {a} in the root block union: {why} (first classifier that answers wins)")
     # acceptance guards of the line classifiers
-    G = [(TP + ".plain", "CommentDefinition.from_string", "if not s.startswith('#')"), (TP + ".plain", "AliasDefinition.from_string", "if not s.startswith('@alias ')"),
-         (TP + ".plain", "DimensionDefinition.from_string", "if not (s.startswith('[') and '=' not in s)"), (TP + ".plain", "DerivedDimensionDefinition.from_string_and_config", "if not (s.startswith('[') and '=' in s)"),
-         (TP + ".plain", "PrefixDefinition.from_string_and_config", "if not name.endswith('-')"), (TP + ".plain", "UnitDefinition.from_string_and_config", "if '=' not in s"), (TP + ".plain", "Equality.from_string", "if '=' not in s"),
-         (TP + ".block", "EndDirectiveBlock.from_string", "if s == '@end'"), (TP + ".defaults", "BeginDefaults.from_string", "if s.strip() == '@defaults'"), (TP + ".group", "BeginGroup.from_string", "if not s.startswith('@group')"),
-         (TP + ".system", "BeginSystem.from_string", "if not s.startswith('@system')"), (TP + ".common", "ImportDefinition.from_string", "if s.startswith('@import')"), (TP + ".context", "_from_string_and_context_sep", "if separator not in s"),
-         (TP + ".context", "_from_string_and_context_sep", "if ':' not in s")]
-    for mod, q, frag in G:
+    # by facts: a classifier answers (returns something other than None) only where its acceptance predicate is known to
+    # hold; atoms are written in positive form with wildcards for locals, (pattern, truth)
+    from .. import shape as _shg
+    G = [(TP + ".plain", "CommentDefinition.from_string", [("s.startswith('#')", True)]), (TP + ".plain", "AliasDefinition.from_string", [("s.startswith('@alias ')", True)]),
+         (TP + ".plain", "DimensionDefinition.from_string", [("s.startswith('[')", True), ("'=' in s", False)]),
+         (TP + ".plain", "DerivedDimensionDefinition.from_string_and_config", [("s.startswith('[')", True), ("'=' in s", True)]),
+         (TP + ".plain", "PrefixDefinition.from_string_and_config", [("_N.endswith('-')", True)]), (TP + ".plain", "UnitDefinition.from_string_and_config", [("'=' in s", True)]),
+         (TP + ".plain", "Equality.from_string", [("'=' in s", True)]),
+         (TP + ".block", "EndDirectiveBlock.from_string", [("s == '@end'", True)]), (TP + ".defaults", "BeginDefaults.from_string", [("s.strip() == '@defaults'", True)]),
+         (TP + ".group", "BeginGroup.from_string", [("s.startswith('@group')", True)]),
+         (TP + ".system", "BeginSystem.from_string", [("s.startswith('@system')", True)]), (TP + ".common", "ImportDefinition.from_string", [("s.startswith('@import')", True)]),
+         (TP + ".context", "_from_string_and_context_sep", [("separator in s", True), ("':' in s", True)])]
+    for mod, q, preds in G:
         fn = ix.func(mod, q)
         ck.analysed(fn)
-        ck.check(frag in norm(fn.node), "G-EXH", f"classifier-guard|{q}", fn.loc(), f"guard `{frag}`", f"{q} no longer has the acceptance guard `{frag}`: it answers for lines of another kind (or none)")
+        fnn = _shg.inline_helpers(ix, fn)
+        answers = [r for r in _shg.returns_of(fnn) if not (isinstance(r.value, ast.Constant) and r.value.value is None) and not _shg.dead(r, fnn)]
+        ck.floor("G-EXH", len(answers), 1, f"answering return of classifier {q}")
+        missing = [f"{'' if truth else 'not '}{pat}" for pat, truth in preds
+                   if not all(_shg.holds_at(r, fnn, lambda a_, pat=pat: _shg.match(pat, a_) is not None, truth) for r in answers)]
+        frag = " and ".join(f"{'' if truth else 'not '}{pat}" for pat, truth in preds)
+        ck.check(not missing, "G-EXH", f"classifier-guard|{q}", fn.loc(), f"answers only when `{frag}`",
+                 f"{q} can answer although `{' / '.join(missing)}` is not established: it answers for lines of another kind (or none)")
     fn = ix.func(TP + ".context", "ForwardRelation.from_string_and_config")
     ck.check("'->')" in norm(fn.node), "G-EXH", "classifier-guard|ForwardRelation.separator", fn.loc(), "-> separator", "ForwardRelation no longer splits on '->'")
     fn = ix.func(TP + ".context", "BidirectionalRelation.from_string_and_config")
